@@ -98,6 +98,110 @@ def small_doc(rng):
     return gen_docs.ledger(rng, n_dir=rng.choice([1, 1, 2, 3]))
 
 
+PREAMBLE_OPT = PREAMBLE + 'From AB Require Import TreeEdit.\n'
+
+
+def opt_sites(root):
+    """(path steps as Coq terms, model, public property name, field name) for every optional_node_property of every
+    tree model reachable from `root` through required / present optional fields and items of repeated fields
+    (the steps TreeEdit.select understands)."""
+    from autobean_refactor import models
+    from autobean_refactor.models import base
+    from autobean_refactor.models.internal.repeated import Repeated
+    from autobean_refactor.models.internal import properties as props
+    from autobean_refactor.models.internal import fields as F
+    out = []
+
+    def rec(m, steps):
+        if isinstance(m, base.RawTokenModel) or isinstance(m, (models.NumberAddExpr, models.NumberMulExpr, Repeated)):
+            return
+        fields = treewalk.node_fields(m)
+        names = {k for k, _ in fields}
+        seen = set()
+        for cls in type(m).__mro__:
+            for pname, attr in vars(cls).items():
+                if pname in seen or not isinstance(attr, props.optional_node_property):
+                    continue
+                seen.add(pname)
+                if getattr(type(m), pname, None) is not attr:
+                    continue
+                inner = attr._inner_field
+                fname = getattr(inner, '_attr', None)
+                if isinstance(inner, F.optional_field) and fname in names:
+                    out.append((list(steps), m, pname, fname))
+        for k, v in fields:
+            if isinstance(v, Repeated):
+                for i, it in enumerate(v.items):
+                    rec(it, steps + [f'SItem {q(k)} {i}%nat'])
+            elif v is not None:
+                rec(v, steps + [f'SField {q(k)}'])
+
+    rec(root, [])
+    return out
+
+
+def optional_edits(ctx, r, text, ac, pool, ocases, ometas):
+    """Real optional-field edits (`m.raw_x = None`, `m.raw_x = fresh value`) on a freshly parsed document, each dumped
+    before/after with one Dumper for TreeRun.check_ocase; the C05 statement is evaluated on the whole document after
+    every edit (monitor)."""
+    from autobean_refactor.models import base
+    doc = gen_docs.parse_ok(text, ac)
+    if doc is None:
+        return
+    tops = [x for x in doc.raw_directives_with_comments if isinstance(x, base.RawTreeModel)]
+    if not tops:
+        return
+    for _k in range(2):
+        top = r.choice(tops)
+        sites = opt_sites(top)
+        if not sites:
+            continue
+        for steps, m, pname, fname in sites:
+            v = getattr(m, pname)
+            if v is not None and len(pool.setdefault((type(m).__name__, pname), [])) < 4:
+                pool[(type(m).__name__, pname)].append(copy.deepcopy(v))
+        steps, m, pname, fname = r.choice(sites)
+        key = (type(m).__name__, pname)
+        present = getattr(m, pname) is not None
+        if not present and not pool.get(key):
+            cands = [st for st in sites if getattr(st[1], st[2]) is not None or pool.get((type(st[1]).__name__, st[2]))]
+            if not cands:
+                continue
+            steps, m, pname, fname = r.choice(cands)
+            key = (type(m).__name__, pname)
+            present = getattr(m, pname) is not None
+        # two edits at this site: remove then re-create (with a deep copy), or create (donor from the pool) then remove
+        saved = copy.deepcopy(getattr(m, pname)) if present else None
+        for action in (('remove', 'create') if present else ('create', 'remove')):
+            if r.random() < 0.5:
+                root, p = top, steps
+            else:
+                root, p = m, []
+            d = Dumper()
+            before = d.node(root)
+            meta = {'kind': 'opt-' + action, 'text': text, 'auto_claim': ac, 'class': type(m).__name__, 'property': pname,
+                    'path': p}
+            try:
+                if action == 'remove':
+                    setattr(m, pname, None)
+                else:
+                    setattr(m, pname, saved if saved is not None else copy.deepcopy(r.choice(pool[key])))
+                    saved = None
+            except Exception as e:  # noqa
+                ctx.dist('optional-edit-refused=' + common.exn_name(e))
+                break
+            after = d.node(root)
+            ctor = 'TRemoveOpt' if action == 'remove' else 'TCreateOpt'
+            ocases.append(f'{ctor} {before} [{"; ".join(p)}] {q(fname)} {after}')
+            ometas.append(meta)
+            ctx.case({'optional-edit': action, 'class': type(m).__name__, 'property': pname, 'text': text})
+            probs = treewalk.wf_problems(doc, expect_whole_store=True)
+            if probs:
+                ctx.monitor_failure('C05:optional-field-' + action,
+                                    f'after {type(m).__name__}.{pname} {action}: {probs[0]}', dict(meta, problems=probs[:3]))
+                return
+
+
 def run(ctx: common.Ctx, prop: str):
     from autobean_refactor import models
     from autobean_refactor.models import base
@@ -106,6 +210,7 @@ def run(ctx: common.Ctx, prop: str):
     from harness import edits
     cases, metas = [], []
     wcases, wmetas = [], []
+    ocases, ometas, opt_pool = [], [], {}
     n_docs = ctx.scale(60, 500)
     sd.set_load_factor(1000)
     for _ in range(n_docs):
@@ -167,6 +272,7 @@ def run(ctx: common.Ctx, prop: str):
             d = Dumper()
             wcases.append(wcase(d, b, True)); wmetas.append({'kind': 'wf-after-edits', 'text': text, 'history': hist})
             nb = [(p2, m) for p2, m in treewalk.walk(b) if isinstance(m, base.RawTreeModel) and not isinstance(m, Repeated)]
+            optional_edits(ctx, r, text, ac, opt_pool, ocases, ometas)
         if prop in ('C05', 'C01', 'C15'):
             for _k in range(4):
                 p, x = r.choice(na)
@@ -238,6 +344,20 @@ def run(ctx: common.Ctx, prop: str):
         for i in badw[:3]:
             ctx.fail('corr', 'tree-wf-' + wmetas[i]['kind'],
                      f'the verified well-formedness checker TreeWF.wf_b rejects an implementation state ({wmetas[i]["kind"]})', wmetas[i])
+    if ocases:
+        bado = ctx.run_coq_cases('treeopt', PREAMBLE_OPT, 'ocase', 'check_ocase', ocases, chunk=12)
+        n_ok = len(ocases) - len(bado)
+        ctx.count('traces_validated_against_impl', n_ok)
+        ctx.count('optional_field_edits_validated_against_model', n_ok)
+        for i, k in enumerate(ometas):
+            ctx.dist('corr=' + k['kind'])
+            if i not in bado:
+                ctx.count('optional_' + k['kind'][4:] + '_validated')
+        for i in bado[:3]:
+            ctx.fail('corr', 'tree-' + ometas[i]['kind'],
+                     f'TreeEdit.create_opt/remove_opt (pivot from the extracted chains, separators from the field declaration) and '
+                     f'the implementation disagree on {ometas[i]["kind"]} of {ometas[i]["class"]}.{ometas[i]["property"]}, '
+                     f'or a dumped state is not HWF', ometas[i])
     if not cases:
         return
     bad = ctx.run_coq_cases('tree', PREAMBLE, 'tcase', 'check_case_c', cases, chunk=25)
